@@ -2166,6 +2166,10 @@ class StridedInterval:
 
     @reversed_processor
     def cast_low(self, tok: int) -> StridedInterval:
+        return self._unrev_cast_low(tok)
+
+    def _unrev_cast_low(self, tok: int) -> StridedInterval:
+        # (the operation itself; cast_low is this one behind the un-reversing wrapper)
         assert tok <= self.bits
 
         mask = (1 << tok) - 1
@@ -2208,57 +2212,6 @@ class StridedInterval:
         k = (ret._upper_bound - ret._lower_bound) // ret._stride
         ret._upper_bound = ret._stride * k + ret._lower_bound
         return ret
-
-    def _unrev_cast_low(self, tok: int) -> StridedInterval:
-        assert tok <= self.bits
-
-        mask = (1 << tok) - 1
-
-        if self.stride >= (1 << tok):
-            log.warning("Tried to cast_low an interval to a an interval shorter than its stride.")
-
-        if tok == self.bits:
-            return self.copy()
-
-        # the interval can be represented in tok bits
-        if (self.lower_bound & mask) == self.lower_bound and (self.upper_bound & mask) == self.upper_bound:
-            return StridedInterval(
-                bits=tok,
-                stride=self.stride,
-                lower_bound=self.lower_bound,
-                upper_bound=self.upper_bound,
-                uninitialized=self.uninitialized,
-            )
-
-        # the range between lower bound and upper bound can be represented
-        # in the new SI
-        if self.upper_bound - self.lower_bound <= mask:
-            lower = self.lower_bound & mask
-            upper = self.upper_bound & mask
-            # Keep the signs!
-            if self.lower_bound < 0:
-                # how this should happen ?
-                log.warning("Lower bound values is less than 0")
-                lower = StridedInterval._to_negative(lower, tok)
-            if self.upper_bound < 0:
-                # how this should happen ?
-                log.warning("Upper bound value is less than 0")
-                upper = StridedInterval._to_negative(upper, tok)
-            return StridedInterval(
-                bits=tok, stride=self.stride, lower_bound=lower, upper_bound=upper, uninitialized=self.uninitialized
-            )
-
-        if (self.upper_bound & mask == self.lower_bound & mask) and ((self.upper_bound - self.lower_bound) & mask == 0):
-            # This operation doesn't affect the stride. Stride should be 0 then.
-
-            bound = self.lower_bound & mask
-
-            return StridedInterval(
-                bits=tok, stride=0, lower_bound=bound, upper_bound=bound, uninitialized=self.uninitialized
-            )
-
-        # TODO: How can we do better here? For example, keep the stride information?
-        return self.top(tok, uninitialized=self.uninitialized)
 
     @normalize_types
     def concat(self, b: StridedInterval) -> StridedInterval:
